@@ -204,6 +204,27 @@ theorem C04_multi_block_load (c : Codec) (bits : Nat) (hb : bits ≠ 1) (i : Nat
              entries := (replayBlocks bits (joinedStates c l) l 0 {}).entriesRev.reverse } :=
   multi_block_load c bits hb i l h
 
+/-- reals and strings within one block, end to end -/
+theorem C04_single_block_load_reals (c : Codec) (signals : Array SigEnc) (i : Nat) (s : SigEnc) (tt : List Nat) (t0 : Nat)
+    (cs : List (Nat × List Nat)) (hs : signals.toList[i]? = some s) (hdata : s.dataBytes = encReals cs) (hne : cs ≠ [])
+    (hcs : ∀ c ∈ cs, c.2.length = 8 ∧ c.1 < 2 ^ 32) (hlen : divCeil (encReals cs).length 32 < 2 ^ 32) :
+    let r := finishSignals c signals
+    let b : Block := { startTime := t0, timeTable := tt, offsets := r.2.1, data := r.2.2 }
+    loadSignal { blocks := [b] } i .real =
+      some { maxStates := s.maxStates, times := (replayPlain cs 0 {}).2.timesRev.reverse,
+             entries := (replayPlain cs 0 {}).2.entriesRev.reverse } :=
+  single_block_load_reals c signals i s tt t0 cs hs hdata hne hcs hlen
+
+theorem C04_single_block_load_strings (c : Codec) (signals : Array SigEnc) (i : Nat) (s : SigEnc) (tt : List Nat) (t0 : Nat)
+    (cs : List (Nat × List Nat)) (hs : signals.toList[i]? = some s) (hdata : s.dataBytes = encStrings cs) (hne : cs ≠ [])
+    (hcs : ∀ c ∈ cs, c.1 < 2 ^ 32) (hlen : divCeil (encStrings cs).length 32 < 2 ^ 32) :
+    let r := finishSignals c signals
+    let b : Block := { startTime := t0, timeTable := tt, offsets := r.2.1, data := r.2.2 }
+    loadSignal { blocks := [b] } i .string =
+      some { maxStates := s.maxStates, times := (replayPlain cs 0 {}).2.timesRev.reverse,
+             entries := (replayPlain cs 0 {}).2.entriesRev.reverse } :=
+  single_block_load_strings c signals i s tt t0 cs hs hdata hne hcs hlen
+
 /-- the stream the theorems are about is what the encoder appends: `add_n_bit_change` on a multi-bit signal -/
 theorem C04_encoder_chunk (ti : Nat) (value : List Nat) (st : States) (s s' : SigEnc) (bits : Nat)
     (ht : s.tpe = .bitvec bits) (hb : bits ≠ 1) (h : addNBit ti value st s = some s') :
